@@ -2,13 +2,14 @@
 
 Implementation runner / direct oracle (no reference to the Lean model):
   for every generated configuration (Distributed Shampoo full / int8+int16-quantized under a one-device pmap /
-  int8-quantized momentum replicated / compression_rank / frequent_directions(+reuse_preconditioner)(+average_grad) /
+  int8-quantized momentum replicated / compression_rank / lobpcg_topk_precondition / frequent_directions(+reuse_preconditioner)(+average_grad) /
   sharded under a one-device Mesh, SM3, Tearfree Shampoo / Sketchy through `tearfree(...)` and through the bare
   `shampoo.apply` / `sketchy.apply` transformations) the optimizer is run for T steps on a seeded gradient history
   (eagerly AND under jit; pmap / sharded variants in their own compiled mode), the state and the parameters are
   written with `flax.serialization.to_bytes` after every step k in 0..T, and for EVERY k the bytes are restored with
   `from_bytes` into the `init` of a FRESHLY constructed optimizer object (thorough tier: at every k in a fresh Python
-  process; quick tier: in-process at every k plus one k per case in a fresh process), leaves are turned into
+  process; quick tier: in-process at every k plus one k per case in a fresh process; the child interpreter gets an
+  explicit PYTHONHASHSEED different from the worker's and, for odd k, traces a throw-away optimizer first), leaves are turned into
   `jax.Array`s (`jnp.asarray`, what a training loop's device_put does — DESIGN §5 C14) and all later updates, the final
   state and the final parameters are compared BITWISE (msgpack bytes: dtype, shape, raw buffer) with the
   uninterrupted run.  Also: bytes(restore(bytes(s))) == bytes(s); input purity (update on writable numpy copies of the
@@ -41,7 +42,7 @@ import tempfile
 from harness import kit
 
 DS_GRAFTS = ["SGD", "ADAGRAD", "RMSPROP", "RMSPROP_NORMALIZED", "SQRT_N", "ADAGRAD_NORMALIZED", "NONE"]
-DS_VARIANTS = ["full", "quant_pmap", "quant_repl", "compress", "fd", "fd_avg", "sharded"]
+DS_VARIANTS = ["full", "quant_pmap", "quant_repl", "compress", "fd", "fd_avg", "sharded", "lobpcg"]
 
 
 # ============================================================================ case generation
@@ -117,6 +118,22 @@ def gen_ds(rng, variant, tier):
     elif variant == "sharded":
         c["shard_optimizer_states"] = True
         c["num_devices_for_pjit"] = rng.choice([1, 2])
+    elif variant == "lobpcg":
+        # LOBPCG-deflated Newton root (non-default): every statistic must have size n > 5k; full-rank statistics
+        # (random gradients, a ridge that is not tiny) keep jax's lobpcg_standard away from its breakdown (known finding K6)
+        c["lobpcg_topk_precondition"] = 1
+        maybe("lobpcg_max_iter", [5], 0.3)
+        c["block_size"] = 16
+        c["matrix_epsilon"] = rng.choice([1e-3, 1e-4])
+        c["eigh"] = False
+        c["start_preconditioning_step"] = rng.choice([0, 1])
+        c["preconditioning_compute_steps"] = rng.choice([1, 1, 2])
+        c["statistics_compute_steps"] = 1
+        for k in ("best_effort_shape_interpretation", "merge_small_dims_block_size", "skip_preconditioning_rank_lt", "exponent_override",
+                  "decay_preconditioning_compute_steps", "end_preconditioning_compute_steps", "precondtioner_type"):
+            c.pop(k, None)
+        shapes = rng.choice([[[8, 8]], [[12, 6]], [[8, 8], [7, 9]], [[6, 10]], [[9, 7], [8]]])
+        return c, shapes
     else:
         maybe("reuse_preconditioner", [True], 0.2)
         maybe("lobpcg_topk_precondition", [1], 0.1)
@@ -159,7 +176,7 @@ def gen_cases(tier, seed):
     rng = random.Random(1000003 * seed + (17 if tier == "thorough" else 5))
     mult = 1 if tier == "quick" else 3
     plan = [("ds", "full", 4), ("ds", "quant_pmap", 3), ("ds", "quant_repl", 2), ("ds", "compress", 3), ("ds", "fd", 3),
-            ("ds", "fd_avg", 3), ("ds", "sharded", 2), ("sm3", "sm3", 3), ("tf", "SHAMPOO", 5), ("tf", "SKETCHY", 5),
+            ("ds", "fd_avg", 3), ("ds", "sharded", 2), ("ds", "lobpcg", 2), ("sm3", "sm3", 3), ("tf", "SHAMPOO", 5), ("tf", "SKETCHY", 5),
             ("tfraw", "SHAMPOO", 1), ("tfraw", "SKETCHY", 2)]
     cases = []
     forced = 0   # DS: diagonal-statistics grafts with a beta2 that is not exactly representable, in every tier and seed
@@ -198,6 +215,10 @@ def gen_cases(tier, seed):
             cases.append({"kind": kind, "variant": variant, "cfg": cfg, "shapes": shapes,
                           "tree": rng.choice(["dict", "dict", "nested", "list"]), "T": T, "gseed": rng.randrange(1 << 30),
                           "scales": _scales(rng, T), "x64": bool(x64), "child_k": rng.randrange(T + 1)})
+            if kind == "ds" and variant == "lobpcg":
+                # the fresh-process resume must be followed by a preconditioner recomputation: 1 <= k <= T-2
+                cases[-1]["scales"] = [1.0] * T
+                cases[-1]["child_k"] = 1 + cases[-1]["gseed"] % max(1, T - 2)
     return cases
 
 
@@ -608,7 +629,13 @@ def run_child(case, ks, refs):
             jp, rp = os.path.join(d, f"job{k}.pkl"), os.path.join(d, f"res{k}.pkl")
             with open(jp, "wb") as f:
                 pickle.dump(job, f)
-            p = subprocess.run([sys.executable, "-m", "harness.props.c14", "--child", jp, rp], cwd=kit.ROOT,
+            # a genuinely different interpreter environment: the string-hash salt of the child differs from this worker's
+            # (whatever the worker's is — fixed, inherited or random), and differs between interruption points
+            env = dict(os.environ)
+            mine = os.environ.get("PYTHONHASHSEED", "")
+            seed = 202 + 7 * k
+            env["PYTHONHASHSEED"] = str(seed if str(seed) != mine else seed + 1)
+            p = subprocess.run([sys.executable, "-m", "harness.props.c14", "--child", jp, rp], cwd=kit.ROOT, env=env,
                                capture_output=True, text=True, timeout=1500)
             if p.returncode != 0 or not os.path.exists(rp):
                 raise kit.InfraError(f"C14 child process failed rc={p.returncode}: {p.stderr[-800:]}")
@@ -616,6 +643,8 @@ def run_child(case, ks, refs):
                 r = pickle.load(f)
             for m in refs:
                 out[(m, k)] = r[m]
+                if isinstance(out[(m, k)], dict):
+                    out[(m, k)]["hashseed"] = r.get("hashseed")
             procs.append(k)
     return out
 
@@ -625,7 +654,19 @@ def child_main(job_path, res_path):
         job = pickle.load(f)
     case = job["case"]
     _setup(case["x64"])
-    res = {}
+    res = {"hashseed": os.environ.get("PYTHONHASHSEED"), "warmup": 0}
+    # a different number of prior traces / calls than the reference worker had: for odd k a throw-away optimizer of the
+    # same configuration is traced and run on other parameters first (per-process streams, caches keyed by call order)
+    if job["k"] % 2 == 1:
+        try:
+            w = dict(case, shapes=[[d + 1 for d in sh] for sh in case["shapes"]], gseed=case["gseed"] + 1)
+            m0 = list(job["blobs"])[0]
+            Rw = Runner(w)
+            pw = build_params(w)
+            Rw.update(m0, grads_for(dict(w, scales=[1.0]), pw, 0), _asjax(Rw.init(pw)), pw)
+            res["warmup"] = 1
+        except Exception:  # noqa: BLE001
+            pass
     for m, (sblob, pblob) in job["blobs"].items():
         try:
             res[m] = resume_from(case, m, job["k"], sblob, pblob)
